@@ -743,7 +743,8 @@ func propC04(w *World, r *Report) {
 		if t := ci.Stores[runs.model.winFld]; t != nil {
 			got = t.String()
 		}
-		r.Check(got == "recorder.RecorderConfig.Window@param:recorder.RecorderConfig" && !ci.Mutable[runs.model.winFld], "S7", "the processor consults the recording window of its recorder configuration (never reassigned)", w.Pos(c.Ctor.Pos()), got)
+		reassigned := len(storesTo(c, c.fieldName(runs.model.winFld))) > 0
+		r.Check(got == "recorder.RecorderConfig.Window@param:recorder.RecorderConfig" && !reassigned, "S7", "the processor consults the recording window of its recorder configuration (never reassigned)", w.Pos(c.Ctor.Pos()), got)
 		if nc := w.Func("recorder", "NewConfig"); nc != nil {
 			ws := storesInto(w, newTermEnv(w), nc, modPath+"/recorder", "RecorderConfig")["Window"]
 			okW := len(ws) == 1 && strings.Contains(ws[0], "window.New(config.Windows.StartRecording@alloc:config.Windows, config.Windows.StopRecording@alloc:config.Windows, config.Location.Latitude@alloc:config.Location, config.Location.Longitude@alloc:config.Location)")
